@@ -21,6 +21,9 @@ pub struct Script {
     pub ops: Vec<Step>,
     /// record a full read of every pool key before closing
     pub dump: bool,
+    /// pass pre_create_cas_dirs = true to every open of this script
+    #[serde(default)]
+    pub pre_create: bool,
 }
 
 #[derive(Clone, Debug, Serialize, Deserialize, Default)]
@@ -91,6 +94,12 @@ pub fn obs_of_bytes(b: Option<&[u8]>) -> String {
     }
 }
 
+fn cfg_of(script: &Script, asyn: bool) -> cassadilia::Config {
+    let mut c = script.cfg.config(asyn);
+    c.pre_create_cas_dirs = script.pre_create;
+    c
+}
+
 fn write_out(path: &Path, out: &WorkerOut) {
     let tmp = path.with_extension("tmp");
     std::fs::write(&tmp, serde_json::to_vec(out).unwrap()).expect("harness: worker results write");
@@ -105,7 +114,7 @@ fn worker_generic<K: HKey>(root: &Path, script: &Script, results: &Path) -> i32 
     mark("OPEN");
     let opened = catch_unwind(AssertUnwindSafe(|| {
         if script.cleanup {
-            Cas::<K>::open_with_recover(root, script.cfg.config(asyn)).map(|(c, st)| {
+            Cas::<K>::open_with_recover(root, cfg_of(script, asyn)).map(|(c, st)| {
                 if let Some(st) = st {
                     mark("CLEANUP");
                     let _ = st.delete_orphans();
@@ -114,7 +123,7 @@ fn worker_generic<K: HKey>(root: &Path, script: &Script, results: &Path) -> i32 
                 c
             })
         } else {
-            Cas::<K>::open(root, script.cfg.config(asyn))
+            Cas::<K>::open(root, cfg_of(script, asyn))
         }
     }));
     let mut cas: Option<Cas<K>> = match opened {
@@ -179,7 +188,7 @@ fn worker_generic<K: HKey>(root: &Path, script: &Script, results: &Path) -> i32 
                     }
                     // close, then open again in this process
                     cas = None;
-                    match Cas::<K>::open(root, script.cfg.config(asyn)) {
+                    match Cas::<K>::open(root, cfg_of(script, asyn)) {
                         Ok(c) => {
                             cas = Some(c);
                             Ok((None, None))
